@@ -15,7 +15,7 @@
     Proofs: InterDiffThm.v ([intersection_correct], [intersection_disjoint],
     [intersection_mut_mirrors]), SetOpsExtra.v. *)
 From Coq Require Import List NArith Sorted.
-From PT Require Import Lookup ViewsThm InterDiffThm SetOpsExtra.
+From PT Require Import Lookup ViewsThm InterDiffThm SetOpsExtra Arena Arena3 ArenaProps.
 From PT.Properties Require Import Common.
 Import ListNotations.
 
@@ -132,6 +132,22 @@ Proof.
   - exact (view_at_wf pfx _ _ _ _ _ _ _ _ _ (laws w fl Hw) _ qb vb (reachable_wfm w fl R Hw opsB HB) Hqb Eb).
 Qed.
 
+(** * The same statement about the ARENA-level transcription of the code (Arena*.v; ArenaProps.v
+      composes the refinement [Rep] with the tree-level theorem): both operands are arenas reachable
+      from the empty arena by any history over the whole alphabet; the iterators run at the two roots. *)
+Theorem C06_arena (amL : Arena.amap pfx L) (amR : Arena.amap pfx R) esL esR :
+  areach pfx L (peq w) (contains w fl) (is_bit_set w) plen (lcp w fl) pzero (okp w) amL -> areach pfx R (peq w) (contains w fl) (is_bit_set w) plen (lcp w fl) pzero (okp w) amR ->
+  Arena.a_entries pfx L amL = Arena.Ok esL -> Arena.a_entries pfx R amR = Arena.Ok esR ->
+  exists out outm,
+    Arena3.a_intersection pfx L R (contains w fl) (is_bit_set w) plen (mcmp w) (Arena.tbl amL) (Arena.tbl amR) 0 0 = Arena.Ok out /\
+    InterDiffThm.inter_spec pfx L R (kbits w) esL esR out /\
+    Arena3.a_intersection_mut pfx L R (contains w fl) (is_bit_set w) plen (mcmp w) (Arena.tbl amL) (Arena.tbl amR) 0 0 = Arena.Ok outm /\
+    out = map (fun '(p, (_, l), (_, r)) => (p, l, r)) outm.
+Proof.
+  intros HL HR EL ER.
+  exact (arena_C06_intersection pfx L R _ _ _ _ _ _ _ _ _ (laws w fl Hw) amL amR esL esR HL HR EL ER).
+Qed.
+
 End C06.
 
 (** Non-vacuity (w = 8).  Map A = {00/2 ↦ 1, 01/2 ↦ 2, 1/1 ↦ 3, 110/3 ↦ 4} over [nat] (node 0/1
@@ -170,3 +186,4 @@ Print Assumptions C06_disjoint.
 Print Assumptions C06_disjoint_views.
 Print Assumptions C06_intersection_views.
 Print Assumptions C06_reachable.
+Print Assumptions C06_arena.
